@@ -24,6 +24,45 @@ CHECKS = {
  "C06": (G, "exploration", "bounded exhaustive enumeration of (date x site up to +-89.5 x method) against the Sun's daily altitude extremes",
          "On the lattice a time is Invalid iff the defining altitude lies outside the Sun's altitude range of that date (0.05 deg exemption band as stated).",
          "Reference declination; exemption band; lattice.", "3/C06"),
+ "C07": (G, "fault_enumeration", "bounded exhaustive enumeration of the crash surface (site x date x method x 27 policies x rounding x deviation sets, iterated by deviation count) under catch_unwind and a watchdog",
+         "No call in the enumerated product (poles to equator, all policies incl. nearest latitude -90..90, all roundings, 0/1/2 parameter deviations to the edges of the stated ranges) panics, hangs (> 5 s) or returns other than 7 entries.",
+         "Deviation alphabet and date subset are finite samples of the stated ranges chosen at their edges; hang = no result within 5 s.", "3/C07"),
+ "C08": (G, "exploration", "bounded exhaustive differential enumeration: every (site, date, method, policy) against the conventional result of the same call",
+         "On the lattice (|lat| <= 70, 8 methods x 14 policies, every date of the stated years) restricted policies leave the other four times untouched, 'invalid' policies keep valid Fajr/Isha unflagged, unflagged times equal the conventional ones and replaced ones are flagged. One known finding (KNOWN_FINDINGS.txt).",
+         "Conventional = policy None; exact equality; quantifier exemptions as the property states.", "3/C08"),
+ "C09": (G, "exploration", "bounded exhaustive enumeration of dates in order with a history oracle (conventional sweep over neighbouring dates)",
+         "For every date of the enumerated years at |lat| <= 64 the nearest-good-day policies report the conventional Fajr/Isha (all six for the all-prayers variant) of the closest date with both valid, earlier on ties, +-1 s, flagged.",
+         "Reference nearest good date computed from the library's own conventional results of the neighbouring dates (policy None), search +-366 days.", "3/C09"),
+ "C10": (G, "exploration", "bounded exhaustive enumeration of (site, date, method/intervals, policy, substitute latitude) against formula oracles",
+         "On the lattice every nearest-latitude / seventh / angle-based / minutes result equals its stated formula evaluated from the conventional Shurooq/Maghrib (or the conventional result at the substitute latitude) within 3 s and is flagged.",
+         "Formulas on whole seconds; substitute-latitude times that do not exist are not judged.", "3/C10"),
+ "C11": (G, "exploration", "exhaustive enumeration of every clock second (offset sweep -90000..90000 s) x 7 prayers x 4 modes against an integer rounding table",
+         "For every unrounded second of the day (incl. negative and >= 24 h intermediate hours) each mode's output is the table value; validity and flags unaffected; moves < 60 s.",
+         "Unrounded h:m:s read from the library's own None mode and bound separately to base + offset.", "3/C11"),
+ "C12": (G, "exploration", "bounded exhaustive enumeration of call pairs differing in exactly one parameter",
+         "On the lattice every single-parameter perturbation (42 offsets, 12 intervals, school, +-1 deg angles, 5 weather points) moves exactly the documented entries by exactly the documented amount and nothing else.",
+         "Angle/school/weather locality under the default policy only on fallback-free dates.", "3/C12"),
+ "C13": (G, "exploration", "exhaustive enumeration of every run of three consecutive dates 1600-2399 per site/method",
+         "No consecutive-date triple on the lattice exceeds the stated second-difference bounds or a 4-minute day-to-day step.",
+         "Differences on truncated seconds; lattice.", "3/C13"),
+ "C14": (G, "exploration", "exhaustive enumeration of (start, span -400..2000, k 0..64) against a set-of-days model; range API vs per-day API",
+         "num_days, partition and the range API agree with the set-of-days model for every enumerated range incl. reversed, empty and single-day ones.",
+         "6 start dates; range API compared on a span subset.", "3/C14"),
+ "C16": (G, "exploration", "exhaustive enumeration of a 0.25/0.5 deg lat/lon grid plus special meridians/parallels against an independent 3-D vector bearing",
+         "Every grid point agrees with the vector bearing within 1e-6 deg, lies in (-180,180], label/text agree with the sign, elevation-independent.",
+         "Spherical Earth; library's Kaaba constants.", "3/C16"),
+ "C17": (G, "exploration", "exhaustive enumeration of the complete input space (3 652 059 dates) against an integer tabular calendar",
+         "Every date 0001-01-01..9999-12-31 maps to the arithmetic Islamic calendar date, correct weekday, successive days, no panic.",
+         "Reference = Calendrical Calculations arithmetic Islamic calendar (self-tested on its sample data).", "3/C17"),
+ "C18": (G, "exploration", "exhaustive enumeration of an f64 bit-pattern alphabet x 6 types x 3 construction routes + composite documents",
+         "All three routes accept exactly the finite in-range values for every pattern of the alphabet, read back bit-identical, never panic, and agree; composite documents reject any out-of-range embedded quantity.",
+         "The f64 a text denotes is std's / serde_json's own reading.", "3/C18"),
+ "C19": (G, "exploration", "exhaustive enumeration of a product of command-line alphabets, each as a 5-run sequence of the real binary, judged against the library",
+         "For every enumerated command line the JSON output decodes to the library result, the parameter file reproduces byte-identical output, the listing matches, and every invalid line is rejected with non-zero exit and no files.",
+         "Explicit dates only; binary built from /repo's working tree.", "3/C19"),
+ "C20": (G, "exploration", "bounded exhaustive enumeration of call pairs (GMT shift, meridian+GMT shift) per site/date/method",
+         "No pair on the lattice (|lat| <= 45, |d| <= 1 h, zone offsets <= 3 h) differs by more than 10 s or changes validity.",
+         "Zone offsets within 3 h of lon/15 so both calls report the same physical events.", "3/C20"),
 }
 
 def cmd(i, tier): return f"./run check {i} {tier}"
